@@ -478,7 +478,7 @@ class SimpleHeatPumpCycle:
             condenser_profile = np.array([
                 [H[1], T[1]],            # superheated
                 [h_sat_vapor, T_sat_vapor] if h_sat_vapor < H[1] else [H[1], T[1]],
-                [h_sat_liquid, T_sat_liquid],
+                [h_sat_liquid, T_sat_liquid] if h_sat_liquid < H[1] else [H[1], T[1]],
                 [H[2], T[2]],            # subcooled outlet
             ], dtype=float)
 
@@ -534,7 +534,7 @@ class SimpleHeatPumpCycle:
         # Assemble the 3-point polyline: [H, T]
         evaporator_profile = np.array([
             [H[3], T[3]],            # inlet
-            [h_sat_vapor, T_sat_vapor],
+            [h_sat_vapor, T_sat_vapor] if h_sat_vapor > H[3] else [H[3], T[3]],
             [H[0], T[0]],            # superheated outlet
         ], dtype=float)
     
